@@ -276,10 +276,20 @@ def _check_history(case, ctx):
     seq = case['seq']
     built = {}
     last = None
-    for cname, aname in seq:
+    from penman.exceptions import PenmanError
+    for k, (cname, aname) in enumerate(seq):
         if aname not in built:
             built[aname] = B.build(aname)
-        last = B.invoke(C[cname][1], built[aname], amr)
+        if k < len(seq) - 1:
+            # the client owns its results: it may use every documented in-place operation on them
+            try:
+                raw = C[cname][1](built[aname], amr)
+                if not (isinstance(raw, dict) and 'selfcheck' in raw):
+                    _inplace_ops(raw, built[aname])
+            except PenmanError:
+                pass
+        else:
+            last = B.invoke(C[cname][1], built[aname], amr)
         ctx.transitions += 1
     # between calls a client may use its results in place (documented in-place operations on the result objects)
     cname, aname = seq[-1]
